@@ -248,11 +248,11 @@ m("m11e", "C11", "sqllineage/core/holders.py",
   "                    for src_wildcard in sorted(\n                        self.get_source_columns(tgt_wildcard), key=lambda c: str(c)\n                    ):\n",
   "                    for src_wildcard in self.get_source_columns(tgt_wildcard):\n",
   "wildcard sources visited in set order again (the repaired defect)")
-m("m11f", "C11", "sqllineage/core/holders.py",
+m("m03j", "C03", "sqllineage/core/holders.py",
   "                    key=lambda x: x[2].get(EdgeTag.INDEX, 0),\n",
   "                    key=lambda x: 0,\n",
-  "rename pairs no longer ordered by position (the repaired defect, partly)")
+  "rename pairs no longer ordered by their position in the statement (graph insertion order instead: deterministic, but not left to right)")
 m("m11g", "C11", "sqllineage/core/holders.py",
   "    def _get_target_table(self) -> Optional[Union[SubQuery, Table]]:\n        table = None\n        if write_only := self.write.difference(self.read):\n            table = next(iter(write_only))\n",
   "    def _get_target_table(self) -> Optional[Union[SubQuery, Table]]:\n        table = None\n        if write_only := self.write.difference(self.read):\n            table = next(iter(write_only))\n        elif self.write:\n            table = next(iter(self.write))\n",
-  "target table falls back to 'the first' written table when every written table is also read")
+  "target table falls back to 'the first' written table when every written table is also read (control: would need a statement form with two written tables that are both read - none found in any dialect)", expect="miss")
